@@ -152,7 +152,7 @@ impl Prop for C06 {
         "relational: same input (soup / structured documents with foreign islands / dense mis-nested documents) and schedule under handler set H (selector-scoped observers, sometimes plus document handlers) and under H ∪ O (O = document text/comments/doctype, '*', sparse selectors, everything), O registered before or after H; non-trivial when the two runs differ in the number of scanner<->lexer switches (hook events) and H logged at least one event; distinct = hash(input, schedule, H, O)".into()
     }
     fn run_shard(&self, ctx: &mut Ctx<'_>) {
-        let n = ctx.budget(600_000, 12_000_000);
+        let n = ctx.budget(600_000, 36_000_000);
         for i in 0..n {
             if i % 64 == 0 && ctx.should_stop() {
                 break;
